@@ -1,6 +1,6 @@
 (* Lemmas about the L0 tracker model: list facts, the reachability invariant. *)
 From Coq Require Import List NArith ZArith QArith Bool Lia Permutation.
-From Similari Require Import Base.Num Model.Constraints Model.Tracker Proofs.GateProofs.
+From Similari Require Import Base.Num Model.Constraints Model.Tracker Proofs.TrackerScalarProofs.
 Import ListNotations.
 Open Scope N_scope.
 
@@ -308,9 +308,31 @@ Qed.
 Lemma Inv_set_aw c st a b : Inv c st -> Inv c (set_aw st a b).
 Proof. intros [H1 H2 H3 H4 H5]. constructor; assumption. Qed.
 
+(* the translated prologues, through their spec lemma *)
+Lemma prologue_with_step c st :
+  prologue_with auto_waste_step c st =
+  if aw_cnt st =? 0 then set_aw (auto_waste c st) (aw_per st) (aw_per st) else set_aw st (aw_cnt st - 1) (aw_per st).
+Proof.
+  unfold prologue_with, auto_waste_step. destruct (aw_cnt st =? 0); [reflexivity|]. rewrite N.sub_1_r. reflexivity.
+Qed.
+
+Lemma prologue_eq c st :
+  prologue c st =
+  if aw_cnt st =? 0 then set_aw (auto_waste c st) (aw_per st) (aw_per st) else set_aw st (aw_cnt st - 1) (aw_per st).
+Proof.
+  rewrite <- prologue_with_step. unfold prologue, prologue_with.
+  rewrite (proj1 (auto_waste_prologue_spec (aw_cnt st) (aw_per st))). reflexivity.
+Qed.
+
+Lemma prologue_batch_eq c st : prologue_batch c st = prologue c st.
+Proof.
+  unfold prologue, prologue_batch, prologue_with.
+  destruct (auto_waste_prologue_spec (aw_cnt st) (aw_per st)) as [H1 [H2 _]]. rewrite H1, H2. reflexivity.
+Qed.
+
 Lemma Inv_prologue c st : Inv c st -> Inv c (prologue c st).
 Proof.
-  intro H. unfold prologue. destruct (aw_cnt st =? 0).
+  intro H. rewrite prologue_eq. destruct (aw_cnt st =? 0).
   - apply Inv_set_aw, Inv_auto_waste, H.
   - apply Inv_set_aw, H.
 Qed.
